@@ -158,12 +158,9 @@ def _resolve(scope, qual, name, K):
         for r in known:
             out |= _expand(r, name, K)
         return out
-    # nothing disambiguates: unresolved with its candidates (a known table that lacks the column is no candidate)
-    cands = [r.label for r in scope if not (r.kind == "base" and r.table in K)]
-    if len(cands) == 1:
-        r = next(r for r in scope if r.label == cands[0])
-        return _expand(r, name, K)
-    return {_unres(name, cands)}
+    # nothing disambiguates: unresolved with its candidates, exactly as without metadata (the property only says
+    # a column is never *attributed* to a known table lacking it; it does not require the candidate list to shrink)
+    return {_unres(name, [r.label for r in scope])}
 
 
 def _expr_sources(e, scope, env, K, ds):
@@ -298,7 +295,7 @@ def selftest():
     assert columns(st2) == {("?c1[<default>.t1|<default>.t2]", "<default>.tgt.c1")}, columns(st2)
     # metadata disambiguates; a known table lacking the column is never a candidate
     assert columns(st2, {"<default>.t1": ["c1"], "<default>.t2": ["z"]}) == {("<default>.t1.c1", "<default>.tgt.c1")}
-    assert columns(st2, {"<default>.t2": ["z"]}) == {("<default>.t1.c1", "<default>.tgt.c1")}
+    assert columns(st2, {"<default>.t2": ["z"]}) == {("?c1[<default>.t1|<default>.t2]", "<default>.tgt.c1")}
     # derived table traced through, union position by position, column list wins
     d = {"k": "derived", "q": {"ctes": [], "branches": [sel([col(None, "c1", "x1")], [base("t1")]), sel([col(None, "c2")], [base("t2")])], "ops": ["UNION ALL"]}, "alias": "a1"}
     st3 = {"kind": "insert", "target": T("tgt"), "collist": ["k0"], "q": q1(sel([col("a1", "x1")], [d]))}
